@@ -1054,3 +1054,33 @@ def _unsupported(p):
             raise
         return Extra(val, registered=registered, dispatched=True)
     return run
+
+
+# ------------------------------------------ growth: API no listed property names
+@action("from_roots")
+def _from_roots(p):
+    import numpoly
+    return lambda r: numpoly.polynomial_from_roots(r)
+
+
+@action("apply_along_axis")
+def _apply_along_axis(p):
+    import numpoly
+    f = {"sum": numpoly.sum, "prod": numpoly.prod}[p["fn"]]
+    mod = numpy if p.get("spelling") == "numpy" else numpoly
+    return lambda a: mod.apply_along_axis(f, p["axis"], a)
+
+
+@action("result_type")
+def _result_type(p):
+    import numpoly
+    from .record import Extra
+    mod = numpy if p.get("spelling") == "numpy" else numpoly
+    return lambda a, b: Extra(None, dtype_name=str(numpy.dtype(mod.result_type(a, b))))
+
+
+@action("logical")
+def _logical(p):
+    import numpoly
+    mod = numpy if p.get("spelling") == "numpy" else numpoly
+    return lambda a: getattr(mod, p["fn"])(a)
